@@ -2,9 +2,9 @@ PROP = dict(
     level="exploration",
     rule="C12: concurrent clients on separate handles, storage steps interleaved by a generated schedule; history checked for linearizability",
     level_text="Exploration: 2-3 clients, each a separate lake handle, issue contending operations while a deterministic scheduler interleaves their individual storage steps according to a rapid-generated schedule; the recorded history is checked for replayability of every branch, uniqueness of names, presence of every acknowledged commit in its parent chain and existence of a linearization accepted by a sequential model. Schedules and operation sets are sampled (PCT-style runs); in addition every schedule with at most two preemptions of nine contending operation pairs is enumerated (thorough tier: completely).",
-    level_note="Trusted: harness in-memory storage engine (atomic mode = idealised object store with atomic put-if-absent; file mode mirrors pkg/storage/file.go) and gate scheduler; the sequential model of the operations. Real-time precedence is measured in granted storage steps. Not covered: S3's non-atomic put-if-absent fallback (documented upstream as racy), merge/revert under contention, unreadability at intermediate moments in file mode (covered as crash points by C17).",
+    level_note="Trusted: harness in-memory storage engine (atomic mode = idealised object store with atomic put-if-absent; file mode mirrors pkg/storage/file.go) and gate scheduler; the sequential model of the operations. Real-time precedence is measured in granted storage steps. Not covered: S3's non-atomic put-if-absent fallback (documented upstream as racy), revert under contention, unreadability at intermediate moments in file mode (covered as crash points by C17).",
     technique="property-based testing (rapid) with a deterministic storage-step scheduler and a linearizability search against a sequential model",
     assumptions=["processes are modelled as separate lake.Root handles over one in-memory store", "a failed operation is allowed whenever it leaves no trace"],
     tests=[dict(name="TestLinearizable", quick=(8, 120), thorough=(16, 2000)),
-           dict(name="TestPairsExhaustive", quick=(8, 9), thorough=(16, 36), timeout=dict(quick=1500, thorough=5400))],
+           dict(name="TestPairsExhaustive", quick=(8, 12), thorough=(16, 48), timeout=dict(quick=1500, thorough=5400))],
 )
